@@ -194,7 +194,7 @@ Proof.
       * cbn in Hn. rewrite Hn in Hb |- *. cbn [snd good]. unfold clean in Hb.
         destruct (ilookup (inodes s) i) as [nd|] eqn:Ei; [|discriminate].
         destruct nd as [c u]; cbn in Hb. destruct u; [|discriminate].
-        exists c; split; [reflexivity|]. apply in_or_app; right. unfold vread; rewrite Ei; cbn. rewrite app_nil_r; left; reflexivity.
+        exists c; split; [cbn [inodes]; exact Ei|]. apply in_or_app; right. unfold vread; rewrite Ei; cbn. rewrite app_nil_r; left; reflexivity.
     + assumption.
   - (* FsyncDir *)
     cbn [step op_versions]. rewrite app_nil_r. split; [|split]; cbn [ddir pend inodes next].
